@@ -7,6 +7,13 @@ import ViaProofs.ConnLemmas
   server, for every connection: connected is signalled at most once, disconnected at most once and only after
   connected, nothing is signalled after disconnected, and the server's collections hold exactly the connections
   whose adaptor object is alive (retained = open).  No transition of the model raises: every function is total.
+  "Nothing afterwards" covers EVERY application callback of the model — request, chunk, expect-continue, invalid-request
+  and message-sent handlers: each of them goes through `World.noteEvent`, which counts a callback that follows the
+  connection's disconnected event in `otherAfterDisc`, and the invariant keeps that counter at 0.  (This is where the
+  receive loop's `is_held` test, added by the repair of "events are delivered for a connection after its disconnected
+  event", is needed: without it the invariant is not preserved by `receiveLoop`.)  The proof also shows that the server
+  holds an http_connection only for a connection whose handshake completed (`HeldConnected`), which is why a response
+  sent from the receive loop can never end the session synchronously (`aux_sendResponse_held`).
   Known finding C11-KF1 limits the "exactly once" direction: `close()` / the destructor drop connections without
   the disconnected event (the invariant therefore states `disconnectedSeen ≤ connectedSeen`).
 -/
